@@ -172,6 +172,23 @@ inline const std::vector<std::string>& vectorValues()
   static const std::vector<std::string> v = {"", "(", ")", "()", "(1", "1)", "1", "(1)", "(1,2)", "(,)", "(1,)", "((1))", ")(", "(0.5,0.5)", "(1e308,1e308)", "(nan)", "(-1)", "(0)"};
   return v;
 }
+// long digit strings (10..25 digits) with small exponents: mantissas that do not fit an int / a long long
+inline std::vector<std::string> longDigitNumbers()
+{
+  std::vector<std::string> out;
+  static const char* stems[] = {"1844674407370955161599999999", "9223372036854775807999999999", "9999999999999999999999999999",
+                                "1000000000000000000000000000", "2147483647214748364721474836", "0000000000000000000000000001"};
+  static const char* exps[] = {"", "e0", "e1", "e2", "e3", "e+2", "e9", "e00001"};
+  for (const char* st : stems)
+    for (size_t nd = 10; nd <= 25; ++nd)
+      for (const char* ex : exps)
+      {
+        std::string m(st, nd);
+        out.push_back(m + ex);
+        out.push_back("-" + m + ex);
+      }
+  return out;
+}
 inline std::string extremeNumber(Rng& r) { return extremeValues()[r.below(extremeValues().size())]; }
 inline std::string seedWord(Rng& r)
 {
